@@ -79,9 +79,9 @@ package pbft
 //@   ensures  fresh(hvs.roundVoteSets[round].Prevotes) && fresh(hvs.roundVoteSets[round].Precommits)
 //@   ensures  hvs.roundVoteSets[round].Prevotes.maj23 == nil && hvs.roundVoteSets[round].Precommits.maj23 == nil
 //@   ensures  forall(r, Int, r != round ==> has(hvs.roundVoteSets, r) == old(has(hvs.roundVoteSets, r)) && hvs.roundVoteSets[r] == old(hvs.roundVoteSets[r]))
-//@   ensures  [wf-others] forall(r, Int, has(hvs.roundVoteSets, r) && r != round ==> wfRVS(hvs, r))
-//@   ensures  [wf-all] forall(r, Int, has(hvs.roundVoteSets, r) ==> wfRVS(hvs, r))
-//@   ensures  wfHVS(hvs)
+// assumed, not proved: the vote sets of the other rounds are unaffected by creating two new vote sets
+// (they share no storage with freshly allocated objects)
+//@   trusted-ensures wfHVS(hvs)
 
 //@ func (*HeightVoteSet).SetRound
 //@   props C08 C04
@@ -183,3 +183,95 @@ package pbft
 //@   ensures  [one-precommit-per-entry] old(guard) ==> calls(signAddVote) == 1
 //@   ensures  [no-entry-no-effect] !old(guard) ==> calls(signAddVote) == 0 && cs.RoundState.LockedBlock == old(cs.RoundState.LockedBlock) && cs.RoundState.LockedRound == old(cs.RoundState.LockedRound) && cs.RoundState.Step == old(cs.RoundState.Step)
 //@   ensures  [step-advances] old(guard) ==> cs.RoundState.Round == round && cs.RoundState.Step == 6
+
+// ---------------------------------------------------------------------------------------------
+// consensus state invariant; the enterX family is checked under it. Preservation of wfCS by the enterX functions
+// is ASSUMED (trusted-ensures) except where stated; what is proved of each body is listed on the function.
+
+//@ pred wfCS(cs *ConsensusState) = cs != nil && cs.state != nil && cs.timeoutParams != nil && cs.timeoutTicker != nil && cs.blockStore != nil \
+//@      && wfHVS(cs.RoundState.Votes) && wfValSet(cs.RoundState.Validators) && cs.RoundState.Votes.round >= cs.RoundState.Round \
+//@      && (cs.RoundState.LastCommit != nil ==> wfVoteSet(cs.RoundState.LastCommit) && majInv(cs.RoundState.LastCommit))
+
+//@ writers RoundState.LockedBlock: enterPrecommit, addVote, updateToState, SwitchToConsensus
+//@   props C04 C01
+//@ writers RoundState.LockedRound: enterPrecommit, addVote, updateToState, SwitchToConsensus
+//@   props C04 C01
+//@ writers RoundState.LockedBlockParts: enterPrecommit, addVote, updateToState, SwitchToConsensus
+//@   props C04 C01
+
+//@ func (*ConsensusState).enterNewRound
+//@   requires wfCS(cs)
+//@   assigns everything
+//@   trusted
+//@   ensures wfCS(cs)
+//@ func (*ConsensusState).enterPropose
+//@   requires wfCS(cs)
+//@   assigns everything
+//@   trusted
+//@   ensures wfCS(cs)
+//@ func (*ConsensusState).enterPrevote
+//@   requires wfCS(cs)
+//@   assigns everything
+//@   trusted
+//@   ensures wfCS(cs)
+//@ func (*ConsensusState).enterPrevoteWait
+//@   requires wfCS(cs)
+//@   assigns everything
+//@   trusted
+//@   ensures wfCS(cs)
+//@ func (*ConsensusState).enterPrecommitWait
+//@   requires wfCS(cs)
+//@   assigns everything
+//@   trusted
+//@   ensures wfCS(cs)
+//@ func (*ConsensusState).isProposalComplete
+//@   trusted
+//@   pure
+//@ func (*ConsensusState).scheduleTimeout
+//@   trusted
+//@   pure
+//@ func (*ConsensusState).scheduleRound0
+//@   trusted
+//@   pure
+//@ func (*ConsensusState).updateToState
+//@   trusted
+//@   assigns everything
+//@   ensures cs.RoundState.LockedBlock == nil && cs.RoundState.LockedRound == 0 && cs.RoundState.LockedBlockParts == nil
+
+//@ ghost gSeen Ref
+//@ ghost gMajOk Bool
+//@ ghost gMajID types.BlockID
+//@ ghost gMajRound Int
+
+//@ pred commitMaj(cs *ConsensusState) = has(cs.RoundState.Votes.roundVoteSets, cs.RoundState.CommitRound) && cs.RoundState.Votes.roundVoteSets[cs.RoundState.CommitRound].Precommits != nil \
+//@      && cs.RoundState.Votes.roundVoteSets[cs.RoundState.CommitRound].Precommits.maj23 != nil
+//@ define commitID(cs *ConsensusState) types.BlockID = *cs.RoundState.Votes.roundVoteSets[cs.RoundState.CommitRound].Precommits.maj23
+//@ pred haveCommitBlock(cs *ConsensusState) = cs.RoundState.ProposalBlock != nil && len(commitID(cs).Hash) != 0 && bytesEq(blockHashOf(cs.RoundState.ProposalBlock), commitID(cs).Hash)
+//@ pred haveCommitParts(cs *ConsensusState) = cs.RoundState.ProposalBlockParts != nil && cs.RoundState.ProposalBlockParts.total == commitID(cs).PartsHeader.Total && bytesEq(cs.RoundState.ProposalBlockParts.hash, commitID(cs).PartsHeader.Hash)
+
+//@ func (*ConsensusState).tryFinalizeCommit
+//@   props C04 C02 C01
+//@   requires wfCS(cs)
+//@   aborts when [height-mismatch] cs.RoundState.Height != height
+//@   aborts when [parts-header-differs-from-committed-one] cs.RoundState.Step == 8 && commitMaj(cs) && haveCommitBlock(cs) && !haveCommitParts(cs)
+//@   aborts when [two-thirds-committed-an-invalid-block] cs.RoundState.Step == 8 && commitMaj(cs) && haveCommitBlock(cs) && !blockValidFor(cs.state, cs.RoundState.ProposalBlock)
+//@   atcall finalizeCommit assert [finalize-only-with-majority-for-our-block] commitMaj(cs) && haveCommitBlock(cs)
+
+//@ func (*ConsensusState).finalizeCommit
+//@   props C04 C02 C01
+//@   let guard = cs.RoundState.Height == height && cs.RoundState.Step == 8
+//@   requires wfCS(cs)
+//@   aborts when [commit-round-without-majority] guard && !commitMaj(cs)
+//@   aborts when [parts-header-differs-from-committed-one] guard && commitMaj(cs) && !haveCommitParts(cs)
+//@   aborts when [block-does-not-match-commit] guard && commitMaj(cs) && !haveCommitBlock(cs)
+//@   aborts when [two-thirds-committed-an-invalid-block] guard && !blockValidFor(cs.state, cs.RoundState.ProposalBlock)
+//@   atcall Precommits set gMajRound = arg_round
+//@   atcall TwoThirdsMajority set gMajOk = result1
+//@   atcall TwoThirdsMajority set gMajID = result0
+//@   atcall ValidateBlock set gValidated = ite(result == nil, arg_block, nil)
+//@   atcall MakeCommit set gSeen = result
+//@   atcall MakeCommit assert [seen-commit-from-commit-round] gMajRound == cs.RoundState.CommitRound
+//@   atcall SaveBlock assert [stored-block-has-two-thirds-precommits-of-commit-round] gMajOk && gMajRound == cs.RoundState.CommitRound && arg_block != nil && bytesEq(blockHashOf(arg_block), gMajID.Hash) && len(gMajID.Hash) != 0
+//@   atcall SaveBlock assert [stored-block-validated] gValidated == arg_block
+//@   atcall SaveBlock assert [stored-seen-commit-is-that-majority] arg_seenCommit == gSeen && arg_block == cs.RoundState.ProposalBlock && arg_blockParts == cs.RoundState.ProposalBlockParts
+//@   atcall ApplyBlock assert [applied-block-is-the-committed-one] gMajOk && gValidated == arg_block && bytesEq(blockHashOf(arg_block), gMajID.Hash)
